@@ -200,6 +200,20 @@ fn pollute(c: &SimCfg, r: &mut Sm) {
     c2.seed = r.next();
     c2.n_steps = 2;
     let _ = catch(|| run_sim(&c2, false));
+    // chained sessions: another simulation (other seed) whose last agent update / last step happens exactly at the clock
+    // value at which the next simulation starts
+    for k in [2u64, 3] {
+        for ends_at_start in [true, false] {
+            let back = if ends_at_start { k } else { k - 1 } * c.step_size;
+            if c.t0 >= back {
+                let mut c3 = c.clone();
+                c3.seed = r.next();
+                c3.n_steps = k;
+                c3.t0 = c.t0 - back;
+                let _ = catch(|| run_sim(&c3, false));
+            }
+        }
+    }
 }
 
 pub fn random_cfg(rng: &mut Sm, i: usize) -> SimCfg {
@@ -429,7 +443,7 @@ pub fn c09(ctx: &Ctx) -> i32 {
     let cov = json!({
         "evaluations": runs + children,
         "distinct_nontrivial": d.len(),
-        "rule": "cases = complete simulation runs through sim_runner / market_sim_runner: 8 compositions of the built-in agents through both derive macros (incl. nested sets; 1, 2 and 3 assets), random seeds, step counts 1..120 and 200..420, every eleventh configuration a round step count (256 .. 8192, 1000, 10000) with a handful of agents (every seventh configuration is crowded instead: 150..450 agents per set at full activity, several hundred instructions per step, 3..12 steps), step sizes, ticks 1..10 and agent parameters; each configuration is run twice in-process (the repeat after unrelated activity on the same thread: environments of the same types abandoned with unprocessed instructions, another simulation abandoned after two steps), once in a child OS process and once in a child with the progress bar (children get perturbed environment variables, working directory and heap), and once more with seed+1; compared through a 128-bit FNV digest of all orders, trades, every recorded series and the clock; distinct = distinct digests; non-trivial = the run traded",
+        "rule": "cases = complete simulation runs through sim_runner / market_sim_runner: 8 compositions of the built-in agents through both derive macros (incl. nested sets; 1, 2 and 3 assets), random seeds, step counts 1..120 and 200..420, every eleventh configuration a round step count (256 .. 8192, 1000, 10000) with a handful of agents (every seventh configuration is crowded instead: 150..450 agents per set at full activity, several hundred instructions per step, 3..12 steps), step sizes, ticks 1..10 and agent parameters; each configuration is run twice in-process (the repeat after unrelated activity on the same thread: environments of the same types abandoned with unprocessed instructions, another simulation abandoned after two steps, and - chained sessions - other-seed simulations of two and three steps that end exactly at, or one step before, the clock value at which the repeated run starts), once in a child OS process and once in a child with the progress bar (children get perturbed environment variables, working directory and heap), and once more with seed+1; compared through a 128-bit FNV digest of all orders, trades, every recorded series and the clock; distinct = distinct digests; non-trivial = the run traded",
         "samples": samples,
         "in_process_runs": runs,
         "child_process_runs": children,
